@@ -1,4 +1,363 @@
-import Nstd.Variant.Model
+import Nstd.Variant.LemmasSpec
+import Nstd.Variant.Ieee
+/-
+  Property C07 — Variant keeps the last assigned value with independent lazy copies.
+
+  Model: `Nstd.Variant.step` (Model.lean): variables are `data` pointers to the shared null
+  descriptor, an inline scalar descriptor or a reference-counted heap block; copies share
+  blocks; `clear`, `operator=`, the typed `operator=`, the mutable accessors and `swap`
+  follow the code (clone iff the type differs or `ref > 1`, otherwise in-place write).
+  Specification: `Nstd.Variant.specStep` (Spec.lean): a store of values.
+
+  All theorems hold for every semantics `ds : DblSem` of the double operations (doubles are
+  opaque), for every history `ops : List Op` (any length, any nesting depth of the values
+  and of the access paths).  `stepD`/`specStepD` ignore refused lines (`bad-op`): both
+  sides refuse the same lines (`refuses_same`).
+
+  Scope (see Model.lean): sharing is modelled between variables; the Variants inside a
+  container payload are kept by value.  Precondition built into `step` (`mutOk`): a Variant
+  reached through a mutable accessor of `v` is not given `v` itself as source (finding
+  "self-append"), and the typed container assignment receives a temporary.
+-/
 namespace Nstd.Variant
-theorem placeholder : (init.read 0).type = 0 := by rfl
+
+/-! ## refinement: the variables always hold the values of the plain store -/
+
+/-- For all histories: every variable of the copy-on-write model reads exactly the value the
+    store of values holds (all assignment / copy / swap / typed assignment / mutable access
+    histories, nested paths included). -/
+theorem refines (ds : DblSem) (ops : List Op) (v : Nat) (hv : v < nvars) :
+    (run ds init ops).read v = specRun ds Store.init ops v :=
+  (run_refines ds ops good_init rel_init).2 v hv
+
+/-- the representation invariant (reference count = number of handles, no dangling pointer,
+    no block of a wrong kind, `tmp` of swap destroyed) holds in every reachable state -/
+theorem invariant (ds : DblSem) (ops : List Op) : Good (run ds init ops) :=
+  (run_refines ds ops good_init rel_init).1
+
+/-- the model refuses a line exactly when the specification does -/
+theorem refuses_same (ds : DblSem) (ops : List Op) (op : Op) :
+    (step ds (run ds init ops) op).isNone = (specStep ds (specRun ds Store.init ops) op).isNone := by
+  obtain ⟨g, r⟩ := run_refines ds ops good_init rel_init
+  have := step_refines ds g r op
+  cases h1 : step ds (run ds init ops) op <;> cases h2 : specStep ds (specRun ds Store.init ops) op <;>
+    simp [h1, h2, StepRel] at this ⊢
+
+/-! ## independence -/
+
+/-- In every reachable state, an operation (mutation through an accessor at any path,
+    reassignment, typed assignment, clear, construction, swap) changes no variable other than
+    its targets — whatever blocks the variables share at that moment. -/
+theorem independent (ds : DblSem) (ops : List Op) (op : Op) (w : Nat) (hw : w < nvars) (hnt : w ∉ op.targets) :
+    (stepD ds (run ds init ops) op).read w = (run ds init ops).read w := by
+  obtain ⟨g, r⟩ := run_refines ds ops good_init rel_init
+  obtain ⟨_, r'⟩ := stepD_refines ds g r op
+  rw [r' w hw, r w hw]
+  exact specStepD_frame ds _ op w hnt
+
+/-- the same over a whole tail of operations none of which targets `w` -/
+theorem independent_run (ds : DblSem) (pre post : List Op) (w : Nat) (hw : w < nvars)
+    (hnt : ∀ op ∈ post, w ∉ op.targets) :
+    (run ds init (pre ++ post)).read w = (run ds init pre).read w := by
+  rw [refines ds _ w hw, refines ds _ w hw, specRun_append]
+  exact specRun_frame ds post _ w hnt
+
+/-- a copy is detached from its source: after `copy v w` (or `v = w`), any further history
+    that does not target `w` leaves `w` with the value it had, and vice versa for `v` -/
+theorem copy_independent (ds : DblSem) (pre post : List Op) (v w : Nat) (hw : w < nvars)
+    (hnt : ∀ op ∈ post, w ∉ op.targets) (hvw : w ≠ v) :
+    (run ds init (pre ++ [.copy v w] ++ post)).read w = (run ds init pre).read w := by
+  rw [List.append_assoc]
+  refine independent_run ds pre ([Op.copy v w] ++ post) w hw ?_
+  intro op hop
+  rcases List.mem_append.1 hop with h | h
+  · simp at h; subst h; simpa [Op.targets] using hvw
+  · exact hnt op h
+
+/-! ## type and value are the last assigned ones -/
+
+/-- after `v = x` (typed assignment of a literal of any alternative except null) and any
+    history that does not target `v`, `v` holds `x` -/
+theorem value_last_set (ds : DblSem) (pre post : List Op) (v : Nat) (x : Val) (hv : v < nvars) (hx : x.type ≠ 0)
+    (hnt : ∀ op ∈ post, v ∉ op.targets) :
+    (run ds init (pre ++ [.mut v [] (.set (.lit x))] ++ post)).read v = x := by
+  rw [List.append_assoc, refines ds _ v hv, specRun_append, specRun_append,
+    specRun_frame ds post _ v hnt]
+  have hb : ((x.type == 0) = false) := by simpa using hx
+  simp [specRun, specStepD, specStep, hv, allLt, LeafS.vars, ValS.vars, mutOk, LeafS.setsNull, ValS.eval, hb,
+    updPath, LeafS.eval, Leaf.apply]
+
+/-- after construction from a literal -/
+theorem value_last_constructed (ds : DblSem) (pre post : List Op) (v : Nat) (x : Val) (hv : v < nvars)
+    (hnt : ∀ op ∈ post, v ∉ op.targets) :
+    (run ds init (pre ++ [.new v (.lit x)] ++ post)).read v = x := by
+  rw [List.append_assoc, refines ds _ v hv, specRun_append, specRun_append,
+    specRun_frame ds post _ v hnt]
+  simp [specRun, specStepD, specStep, hv, allLt, ValS.vars, ValS.eval]
+
+/-- after `v = w` (operator=(const Variant&)) `v` holds the value `w` had at that moment -/
+theorem value_last_assigned (ds : DblSem) (pre post : List Op) (v w : Nat) (hv : v < nvars) (hw : w < nvars)
+    (hnt : ∀ op ∈ post, v ∉ op.targets) :
+    (run ds init (pre ++ [.mut v [] (.assign (.var w))] ++ post)).read v = (run ds init pre).read w := by
+  rw [List.append_assoc, refines ds _ v hv, refines ds _ w hw, specRun_append, specRun_append,
+    specRun_frame ds post _ v hnt]
+  simp [specRun, specStepD, specStep, hv, hw, allLt, LeafS.vars, Src.vars, mutOk, LeafS.setsNull,
+    updPath, LeafS.eval, Src.eval, Leaf.apply]
+
+/-- …and in particular reports its type -/
+theorem type_last_set (ds : DblSem) (pre post : List Op) (v : Nat) (x : Val) (hv : v < nvars) (hx : x.type ≠ 0)
+    (hnt : ∀ op ∈ post, v ∉ op.targets) :
+    (run ds init (pre ++ [.mut v [] (.set (.lit x))] ++ post)).typeOf v = x.type := by
+  simp only [State.typeOf, value_last_set ds pre post v x hv hx hnt]
+
+/-- the mutable accessor of type `k` on a Variant of another type replaces it by the copy of
+    the const accessor's result (an empty container / the string conversion); on a Variant of
+    type `k` it changes nothing -/
+theorem touch_value (ds : DblSem) (pre : List Op) (v k : Nat) (hv : v < nvars) (hk : 7 ≤ k ∧ k ≤ 10) :
+    (run ds init (pre ++ [.mut v [] (.touch k)])).read v = coerce ds k ((run ds init pre).read v) := by
+  rw [refines ds _ v hv, refines ds _ v hv, specRun_append]
+  simp [specRun, specStepD, specStep, hv, allLt, LeafS.vars, mutOk, LeafS.setsNull, updPath, LeafS.eval,
+    Leaf.apply, Leaf.kind, Leaf.inPlace, hk]
+
+/-! ## coercions (for all integers of each width)
+
+`Val.num` is the integer a value stands for; `Val.inRange` says that a stored integer lies in
+the range of its C type (what the constructors and the typed `operator=` guarantee).  Each
+`to*_table` theorem covers one conversion function for *every* non-double alternative and
+every integer: the result is the value reduced modulo 2^32 / 2^64 into the target range (the
+C cast), and `to*_exact`: a value that fits is returned unchanged.  Doubles are opaque
+(`DblSem`), so the double column is `toInt (dbl d) = ds.toI32 d` by definition. -/
+
+/-- the integer a value stands for in a signed (`atoi`/`atoll`) or unsigned (`strtoul`/`strtoull`)
+    conversion: bool as 0/1, integers as themselves, strings through the libc parser, the rest 0 -/
+def Val.num (signed : Bool) : Val → Int
+  | .bool b => b2i b
+  | .int i => i
+  | .uint i => i
+  | .int64 i => i
+  | .uint64 i => i
+  | .str s => if signed then strtol s else strtoul s
+  | _ => 0
+
+def Val.isDbl : Val → Bool
+  | .dbl _ => true
+  | _ => false
+
+/-- the stored integer lies in the range of its C type -/
+def Val.inRange : Val → Prop
+  | .int i => inS 32 i
+  | .uint i => inU 32 i
+  | .int64 i => inS 64 i
+  | .uint64 i => inU 64 i
+  | _ => True
+
+theorem toInt_table (ds : DblSem) (v : Val) (hd : v.isDbl = false) (hr : v.inRange) :
+    ∃ r, v.toInt ds = some r ∧ inS 32 r ∧ (r - v.num true) % 4294967296 = 0 := by
+  cases v with
+  | dbl d => cases hd
+  | bool b => cases b <;> exact ⟨_, rfl, by simp [inS, b2i], by simp [Val.num]⟩
+  | int i => exact ⟨i, rfl, hr, by simp [Val.num]⟩
+  | uint i => exact ⟨_, rfl, wrapS32_spec i⟩
+  | int64 i => exact ⟨_, rfl, wrapS32_spec i⟩
+  | uint64 i => exact ⟨_, rfl, wrapS32_spec i⟩
+  | str s => exact ⟨_, rfl, wrapS32_spec _⟩
+  | null => exact ⟨0, rfl, by simp [inS], by simp [Val.num]⟩
+  | map m => exact ⟨0, rfl, by simp [inS], by simp [Val.num]⟩
+  | list m => exact ⟨0, rfl, by simp [inS], by simp [Val.num]⟩
+  | array m => exact ⟨0, rfl, by simp [inS], by simp [Val.num]⟩
+
+theorem toUInt_table (ds : DblSem) (v : Val) (hd : v.isDbl = false) (hr : v.inRange) :
+    ∃ r, v.toUInt ds = some r ∧ inU 32 r ∧ (r - v.num false) % 4294967296 = 0 := by
+  cases v with
+  | dbl d => cases hd
+  | bool b => cases b <;> exact ⟨_, rfl, by simp [inU, b2i], by simp [Val.num]⟩
+  | int i => exact ⟨_, rfl, wrapU32_spec i⟩
+  | uint i => exact ⟨i, rfl, hr, by simp [Val.num]⟩
+  | int64 i => exact ⟨_, rfl, wrapU32_spec i⟩
+  | uint64 i => exact ⟨_, rfl, wrapU32_spec i⟩
+  | str s => exact ⟨_, rfl, wrapU32_spec _⟩
+  | null => exact ⟨0, rfl, by simp [inU], by simp [Val.num]⟩
+  | map m => exact ⟨0, rfl, by simp [inU], by simp [Val.num]⟩
+  | list m => exact ⟨0, rfl, by simp [inU], by simp [Val.num]⟩
+  | array m => exact ⟨0, rfl, by simp [inU], by simp [Val.num]⟩
+
+theorem toInt64_table (ds : DblSem) (v : Val) (hd : v.isDbl = false) (hr : v.inRange) :
+    ∃ r, v.toInt64 ds = some r ∧ inS 64 r ∧ (r - v.num true) % 18446744073709551616 = 0 := by
+  cases v with
+  | dbl d => cases hd
+  | bool b => cases b <;> exact ⟨_, rfl, by simp [inS, b2i], by simp [Val.num]⟩
+  | int i => exact ⟨i, rfl, by simp only [Val.inRange, inS, pow31, pow63] at *; omega, by simp [Val.num]⟩
+  | uint i => exact ⟨i, rfl, by simp only [Val.inRange, inS, inU, pow32, pow63] at *; omega, by simp [Val.num]⟩
+  | int64 i => exact ⟨i, rfl, hr, by simp [Val.num]⟩
+  | uint64 i => exact ⟨_, rfl, wrapS64_spec i⟩
+  | str s => exact ⟨_, rfl, strtol_range s, by simp [Val.num]⟩
+  | null => exact ⟨0, rfl, by simp [inS], by simp [Val.num]⟩
+  | map m => exact ⟨0, rfl, by simp [inS], by simp [Val.num]⟩
+  | list m => exact ⟨0, rfl, by simp [inS], by simp [Val.num]⟩
+  | array m => exact ⟨0, rfl, by simp [inS], by simp [Val.num]⟩
+
+theorem toUInt64_table (ds : DblSem) (v : Val) (hd : v.isDbl = false) (hr : v.inRange) :
+    ∃ r, v.toUInt64 ds = some r ∧ inU 64 r ∧ (r - v.num false) % 18446744073709551616 = 0 := by
+  cases v with
+  | dbl d => cases hd
+  | bool b => cases b <;> exact ⟨_, rfl, by simp [inU, b2i], by simp [Val.num]⟩
+  | int i => exact ⟨_, rfl, wrapU64_spec i⟩
+  | uint i => exact ⟨i, rfl, by simp only [Val.inRange, inU, pow32, pow64] at *; omega, by simp [Val.num]⟩
+  | int64 i => exact ⟨_, rfl, wrapU64_spec i⟩
+  | uint64 i => exact ⟨i, rfl, hr, by simp [Val.num]⟩
+  | str s => exact ⟨_, rfl, strtoul_range s, by simp [Val.num]⟩
+  | null => exact ⟨0, rfl, by simp [inU], by simp [Val.num]⟩
+  | map m => exact ⟨0, rfl, by simp [inU], by simp [Val.num]⟩
+  | list m => exact ⟨0, rfl, by simp [inU], by simp [Val.num]⟩
+  | array m => exact ⟨0, rfl, by simp [inU], by simp [Val.num]⟩
+
+/-- a value that fits the target type converts to itself -/
+theorem toInt_exact (ds : DblSem) (v : Val) (hd : v.isDbl = false) (hr : v.inRange) (hfit : inS 32 (v.num true)) :
+    v.toInt ds = some (v.num true) := by
+  obtain ⟨r, h1, h2, h3⟩ := toInt_table ds v hd hr
+  rw [h1]; congr 1
+  simp only [inS, pow31] at h2 hfit; omega
+
+theorem toUInt_exact (ds : DblSem) (v : Val) (hd : v.isDbl = false) (hr : v.inRange) (hfit : inU 32 (v.num false)) :
+    v.toUInt ds = some (v.num false) := by
+  obtain ⟨r, h1, h2, h3⟩ := toUInt_table ds v hd hr
+  rw [h1]; congr 1
+  simp only [inU, pow32] at h2 hfit; omega
+
+theorem toInt64_exact (ds : DblSem) (v : Val) (hd : v.isDbl = false) (hr : v.inRange) (hfit : inS 64 (v.num true)) :
+    v.toInt64 ds = some (v.num true) := by
+  obtain ⟨r, h1, h2, h3⟩ := toInt64_table ds v hd hr
+  rw [h1]; congr 1
+  simp only [inS, pow63] at h2 hfit; omega
+
+theorem toUInt64_exact (ds : DblSem) (v : Val) (hd : v.isDbl = false) (hr : v.inRange) (hfit : inU 64 (v.num false)) :
+    v.toUInt64 ds = some (v.num false) := by
+  obtain ⟨r, h1, h2, h3⟩ := toUInt64_table ds v hd hr
+  rw [h1]; congr 1
+  simp only [inU, pow64] at h2 hfit; omega
+
+/-- `toBool()`: non-zero test of the numeric alternatives, `String::toBool` for strings, false otherwise -/
+theorem toBool_table (ds : DblSem) (v : Val) :
+    v.toBool ds = (match v with
+      | .bool b => b
+      | .dbl d => !ds.isZero d
+      | .str s => strToBool s
+      | .null | .map _ | .list _ | .array _ => false
+      | v => v.num true != 0) := by
+  cases v <;> simp [Val.toBool, Val.num]
+
+/-- `toDouble()`: `(double)` of the integer for bool and the integer alternatives, the stored
+    double, `atof` of the C string, 0.0 otherwise -/
+theorem toDouble_table (ds : DblSem) (v : Val) :
+    v.toDouble ds = (match v with
+      | .dbl d => d
+      | .str s => ds.ofStr (cstr s)
+      | v => ds.ofInt (v.num true)) := by
+  cases v <;> simp [Val.toDouble, Val.num]
+
+/-- `toString() const`: the string itself, "true"/"false", the decimal numeral, `printf("%f")`,
+    and the empty string for null and the containers -/
+theorem toString_table (ds : DblSem) (v : Val) :
+    v.toStr ds = (match v with
+      | .str s => s
+      | .bool b => if b then strTrue else strFalse
+      | .dbl d => ds.toStr d
+      | .null | .map _ | .list _ | .array _ => []
+      | v => intDec (v.num true)) := by
+  cases v <;> simp [Val.toStr, Val.num]
+
+/-- the integer conversions never leave the target range, doubles included, provided the
+    platform's double casts do not -/
+theorem toInt_range (ds : DblSem) (hds : ∀ d r, ds.toI32 d = some r → inS 32 r) (v : Val) (hr : v.inRange) (r : Int)
+    (h : v.toInt ds = some r) : inS 32 r := by
+  cases hd : v.isDbl
+  · obtain ⟨r', h1, h2, _⟩ := toInt_table ds v hd hr
+    rw [h1] at h; injection h with h; subst h; exact h2
+  · cases v <;> simp [Val.isDbl] at hd
+    exact hds _ _ h
+
+/-! ## equality -/
+
+/-- A Variant compares equal to itself and hence to every copy of itself: for every value
+    (all alternatives, nested containers of any depth) that contains no NaN. -/
+theorem eq_copy (ds : DblSem) (v : Val) (h : NoNaN ds v) : veq ds v v = some true := veq_refl ds v h
+
+/-- …in the model: after `Variant v(w)` the two variables compare equal, in both directions,
+    whatever history led to the state -/
+theorem eq_after_copy (ds : DblSem) (pre : List Op) (v w : Nat) (hv : v < nvars) (hw : w < nvars) (hvw : v ≠ w)
+    (hn : NoNaN ds ((run ds init pre).read w)) :
+    let s := run ds init (pre ++ [.copy v w])
+    veq ds (s.read v) (s.read w) = some true ∧ veq ds (s.read w) (s.read v) = some true := by
+  have hwv : w ≠ v := fun x => hvw x.symm
+  have e1 : (run ds init (pre ++ [.copy v w])).read w = (run ds init pre).read w :=
+    independent_run ds pre [.copy v w] w hw (by intro op hop; simp at hop; subst hop; simpa [Op.targets] using hwv)
+  have e2 : (run ds init (pre ++ [.copy v w])).read v = (run ds init pre).read w := by
+    rw [refines ds _ v hv, refines ds _ w hw, specRun_append]
+    simp [specRun, specStepD, specStep, hv, hw, hvw]
+  simp only [e1, e2]
+  exact ⟨veq_refl ds _ hn, veq_refl ds _ hn⟩
+
+/-- …and stays equal when the copy is detached by its own mutable accessor (the clone path of
+    `toMap()/toList()/toArray()/toString()`; defect D8 was the array case of this) -/
+theorem eq_after_detach (ds : DblSem) (pre : List Op) (v w : Nat) (hv : v < nvars) (hw : w < nvars) (hvw : v ≠ w)
+    (hb : ((run ds init pre).read w).isBoxed = true) (hn : NoNaN ds ((run ds init pre).read w)) :
+    let k := ((run ds init pre).read w).type
+    let s := run ds init (pre ++ [.copy v w] ++ [.mut v [] (.touch k)])
+    veq ds (s.read v) (s.read w) = some true ∧ veq ds (s.read w) (s.read v) = some true := by
+  intro k s
+  have hwv : w ≠ v := fun x => hvw x.symm
+  have hk : 7 ≤ k ∧ k ≤ 10 := by
+    have := (type_boxed _).1 hb
+    refine ⟨this, ?_⟩
+    show ((run ds init pre).read w).type ≤ 10
+    cases (run ds init pre).read w <;> simp [Val.type]
+  have hkind : isKind k := by unfold isKind; omega
+  have e0 : (run ds init (pre ++ [.copy v w])).read v = (run ds init pre).read w := by
+    rw [refines ds _ v hv, refines ds _ w hw, specRun_append]
+    simp [specRun, specStepD, specStep, hv, hw, hvw]
+  have e1 : s.read w = (run ds init pre).read w := by
+    show (run ds init (pre ++ [.copy v w] ++ [.mut v [] (.touch k)])).read w = _
+    rw [List.append_assoc]
+    refine independent_run ds pre _ w hw ?_
+    intro op hop
+    simp at hop
+    rcases hop with rfl | rfl <;> simpa [Op.targets] using hwv
+  have e2 : s.read v = (run ds init pre).read w := by
+    show (run ds init (pre ++ [.copy v w] ++ [.mut v [] (.touch k)])).read v = _
+    rw [touch_value ds _ v k hv hk, e0]
+    exact coerce_same ds k _ hkind rfl
+  rw [e1, e2]
+  exact ⟨veq_refl ds _ hn, veq_refl ds _ hn⟩
+
+/-! ## non-vacuity -/
+
+/-- a NaN-free nested value under the driver's IEEE semantics: [1.5, {"k": 5, "s": "x"}, [[]]] -/
+def sampleVal : Val :=
+  .list [.dbl 0x3ff8000000000000, .map [([107], .int 5), ([115], .str [120])], .array [.list []]]
+
+example : NoNaN ieee sampleVal := by
+  simp only [sampleVal, NoNaN, NoNaNList, NoNaNMap, and_true]
+  decide
+
+/-- a history with sharing, a nested in-place write, a clone and a self-assignment of an own
+    element is accepted by the model (no line refused) and ends where the store of values ends -/
+def sampleOps : List Op :=
+  [ .new 0 (.list [.lit (.int 1), .lit (.str [97])]),
+    .copy 1 0,
+    .mut 2 [] (.mput [107] (.var 0)),
+    .mut 1 [.li 0] (.set (.lit (.uint 7))),
+    .mut 2 [.mk [107], .li 1] (.sapp [98]),
+    .get 2 2 [.mk [107]],
+    .swap 0 1 ]
+
+example : (run ieee init sampleOps).read 0 = .list [.uint 7, .str [97]] ∧      -- the modified copy, swapped in
+    (run ieee init sampleOps).read 1 = .list [.int 1, .str [97]] ∧               -- the source, untouched
+    (run ieee init sampleOps).read 2 = .list [.int 1, .str [97, 98]] := by       -- own element assigned to its parent
+  refine ⟨?_, ?_, ?_⟩ <;> rfl
+
+example : ∀ op ∈ sampleOps.take 3, (step ieee (run ieee init []) op).isSome = true := by
+  intro op hop
+  simp [sampleOps] at hop
+  rcases hop with rfl | rfl | rfl <;> rfl
+
 end Nstd.Variant
